@@ -44,7 +44,7 @@ func LexNumber(x *Lexer, tokInt, tokFloat int) *Token {
 		if x.Rune() == 'e' || x.Rune() == 'E' {
 			isFloat = true
 			x.Next()
-			if IsDigit(x.Rune()) || x.Rune() == '-' {
+			if IsDigit(x.Rune()) || x.Rune() == '-' || x.Rune() == '+' {
 				x.Next()
 			}
 			for IsDigit(x.Rune()) {
